@@ -345,8 +345,13 @@ def constructor_case(ctx, idx, rng):
     fillk = ('int', 'float', 'complex', 'zero', 'default', 'random', 'random-rng')[(idx // 2) % 7]
     fill = {'int': int(rng.choice([1, -2, 3])), 'float': float(rng.choice([1.0, 0.5, -2.5])), 'complex': complex(rng.choice([0.5, 1.0]), rng.choice([-1.0, 2.0])),
             'zero': 0, 'random': 'random', 'random-rng': 'random', 'default': None}[fillk]
-    form = ('array', 'list', 'tuple')[(idx // 14) % 3]
-    conv = {'array': lambda q: np.array(q), 'list': lambda q: [int(x) for x in q], 'tuple': lambda q: tuple(int(x) for x in q)}[form]
+    form = ('array', 'list', 'tuple', 'int32-array', 'int8-array')[(idx // 14) % 5]
+    if form in ('int8-array', 'int32-array') and layout == 'huge':
+        form = 'array'
+    if form == 'int8-array' and layout == 'pairs':
+        form = 'int32-array'
+    conv = {'array': lambda q: np.array(q), 'list': lambda q: [int(x) for x in q], 'tuple': lambda q: tuple(int(x) for x in q),
+            'int32-array': lambda q: np.array(q, dtype=np.int32), 'int8-array': lambda q: np.array(q, dtype=np.int8)}[form]
     a_qd, a_qD = conv(qd), [conv(q) for q in qD]
     cls = ptn.MPO if is_mpo else ptn.MPS
     kw = {}
